@@ -2,7 +2,7 @@
   Abstract transposition table (specification side of C15; core Lean only, independent of the
   bitboard-level model).
 
-  The table is, per bucket, a partial map  signature ↦ last effective store.  A store overwrites
+  The table is, per bucket, a finite map  signature ↦ last effective store.  A store overwrites
   its own key (two rules: a bound does not displace a same-search entry more than two plies deeper;
   a null move inherits the move already recorded for the key) and may delete AT MOST ONE other key
   of the same bucket.  Which key is deleted is left open: the replacement policy is not part of the
@@ -44,6 +44,7 @@ structure Store where
   mv : BitVec 16
   value : Int
   typ : BitVec 8
+  deriving DecidableEq, Repr
 
 /-- What the map remembers for a key: the arguments of the last effective store, and the latest
     non-null move stored for the key while it stayed in the table (0 if none). -/
@@ -54,11 +55,12 @@ structure Stored where
   ply : Int
   move : BitVec 16
   gen : BitVec 8
+  deriving DecidableEq, Repr
 
 /-- The content of one bucket. -/
 abbrev BMap := Sig → Option Stored
 
-/-- The table: number of buckets and a partial map per bucket. -/
+/-- The table: number of buckets and a finite map per bucket. -/
 structure State where
   nb : Nat
   m : Nat → BMap
@@ -103,6 +105,7 @@ inductive Op where
   | clear
   /-- resize to `size` bytes, followed by clear -/
   | resizeClear (size : Nat)
+  deriving DecidableEq, Repr
 
 /-- One step of the abstract table; `bucketOf hash nb` is the bucket addressed by `hash` in a table
     of `nb` buckets. -/
@@ -120,5 +123,39 @@ inductive Run (bucketOf : BitVec 64 → Nat → Nat) (a0 : State) : List Op → 
   | nil : Run bucketOf a0 [] a0
   | snoc {ops : List Op} {a a' : State} {op : Op} :
       Run bucketOf a0 ops a → Step bucketOf a op a' → Run bucketOf a0 (ops ++ [op]) a'
+
+/-- The quantifier of the property on one store: depth `0..63` and one of the three bound types
+    (ply and score are not restricted here; see `value_rebase` for the score arithmetic). -/
+def Store.Valid (s : Store) : Prop := 0 ≤ s.d ∧ s.d ≤ 63 ∧ s.typ.toNat ≤ 2
+
+/-- A supported table size: a positive multiple of the bucket size (otherwise `Resize` panics). -/
+def ValidSize (size : Nat) : Prop :=
+  Gen.Transp.bucketSize.toNat ≤ size ∧ size % Gen.Transp.bucketSize.toNat = 0
+
+def Op.Valid : Op → Prop
+  | .store s => s.Valid
+  | .clear => True
+  | .resizeClear size => ValidSize size
+
+instance (s : Store) : Decidable s.Valid := by unfold Store.Valid; infer_instance
+instance (n : Nat) : Decidable (ValidSize n) := by unfold ValidSize; infer_instance
+instance (op : Op) : Decidable op.Valid := by
+  cases op <;> simp only [Op.Valid] <;> infer_instance
+
+/-- "`st` is what was most recently stored under bucket `b` and signature `k`":
+    `ops` splits as `pre ++ store s :: post` where `s` addresses `(b, k)` and carries the depth,
+    bound type, score, ply and generation recorded in `st`; since then the table was neither cleared
+    nor resized (`post` consists of stores), and every later store to the same bucket and signature
+    was a bound dropped by the keep-deeper rule against this very entry.  If that store carried a
+    move, it is the recorded move (a null move inherits, see `newStored`). -/
+def LastStore (bucketOf : BitVec 64 → Nat → Nat) (ops : List Op) (nb b : Nat) (k : Sig)
+    (st : Stored) : Prop :=
+  ∃ pre s post, ops = pre ++ Op.store s :: post ∧
+    (∀ op, op ∈ post → ∃ s', op = Op.store s') ∧
+    bucketOf s.hash nb = b ∧ sigOf s.hash = k ∧
+    st.depth = s.d ∧ st.typ = s.typ ∧ st.value = s.value ∧ st.ply = s.ply ∧ st.gen = s.gen ∧
+    (s.mv ≠ 0 → st.move = s.mv) ∧
+    (∀ s', Op.store s' ∈ post → bucketOf s'.hash nb = b → sigOf s'.hash = k →
+      s'.typ ≠ exactT ∧ st.depth > s'.d + Gen.Transp.keepDeeperMargin ∧ st.gen = s'.gen)
 
 end ChessVerif.Spec.AbstractTT
